@@ -140,8 +140,9 @@ def flags_of(v, op):
     return sorted(v["codes"][op["slot"] - 1]["fl"])
 
 
-def validate(path):
-    tres = run_tlc("Trace_C35", "Trace_C35.cfg", workers=1, dfs=True, env_extra={"TRACE": path}, timeout=3600)
+def validate(path, tag="0"):
+    tres = run_tlc("Trace_C35", "Trace_C35.cfg", workers=1, dfs=True, env_extra={"TRACE": path}, timeout=7200,
+                   tag="Trace_C35-%s" % tag, xmx="3g")
     if tres.error and not tres.violated:
         raise common.ToolError("Trace_C35 failed: %s\n%s" % (tres.error, "\n".join(tres.lines[-30:])))
     if tres.violated:
@@ -149,6 +150,40 @@ def validate(path):
         raise common.ToolError("Trace_C35 did not consume the trace (stopped at line %s)\n%s" % (
             m.group(1) if m else "?", "\n".join(tres.lines[-30:])))
     return tres, [x for x in tres.printed() if isinstance(x, dict) and "ctr" in x]
+
+
+def validate_sessions(rep, sessions, tier, procs):
+    """sessions: list of event lists (each starting with a reset). The sessions are independent, so the trace is cut into
+    `procs` files validated by as many TLC processes. Returns [(event, verdict)]."""
+    import threading
+    procs = max(1, min(procs, len(sessions)))
+    chunks = [sessions[i::procs] for i in range(procs)]
+    out, errs, paths = [None] * procs, [], []
+
+    def one(i):
+        path = os.path.join(SRCDIR, "trace-%s-%d-%d.ndjson" % (tier, os.getpid(), i))
+        paths.append(path)
+        index = [e for s in chunks[i] for e in s]
+        with open(path, "w") as f:
+            for e in index:
+                f.write(json.dumps({k: x for k, x in e.items() if not k.startswith("_")}) + "\n")
+        try:
+            tres, verdicts = validate(path, "%s-%d" % (tier, i))
+            out[i] = (tres, [(index[vd["line"] - 1], vd) for vd in verdicts])
+        except Exception as e:  # noqa
+            errs.append(e)
+    ths = [threading.Thread(target=one, args=(i,)) for i in range(procs)]
+    for t in ths:
+        t.start()
+    for t in ths:
+        t.join()
+    if errs:
+        raise errs[0]
+    res = []
+    for tres, vs in out:
+        rep.add_tlc(tres)
+        res += vs
+    return res, paths
 
 
 def execute(vecs, workers):
@@ -167,9 +202,9 @@ def execute(vecs, workers):
     return jobs, run_jobs(jobs, workers=workers, job_timeout=120)
 
 
-def judge(rep, vecs, jobs, results, tier):
+def judge(rep, vecs, jobs, results, tier, procs=4):
     """answers (spec -> impl) and the footprint trace (impl -> spec)"""
-    events, index = [], []
+    events, sessions = [], []
     rep.sessions = 0
     for hid, v in enumerate(vecs):
         r = results.get(hid, {"crash": "missing"})
@@ -199,30 +234,31 @@ def judge(rep, vecs, jobs, results, tier):
             hev.append({"ev": "loaded", "src": op["src"], "kind": op["kind"], "api": op["api"],
                         "code": {"fam": op["code"]["fam"], "cs": op["code"]["cs"], "fl": fl},
                         "pre": pre["footprint"], "post": post["footprint"], "_h": hid, "_j": j})
+            bad = []
             for p in probes_of(v, j):
                 out = res[pos]
                 pos += 1
                 d = compare_probe(p, out)
                 if d:
-                    kind = "reload" if st["noop"] else "load"
-                    rep.violation("answers after %s api=%s kind=%s pred=%s: %s; %s" % (kind, op["api"], op["kind"], p["key"][0], d, where),
-                                  {"vector": v, "step": j, "probe": p, "got": out})
-                    ok = False
+                    bad.append((p, d, out))
+            if bad:
+                # after the first divergence the real state is no longer the specified one: report the root cause (a predicate
+                # of facts cannot owe its answers to another predicate, the rule predicates p/q can) and leave the session
+                bad.sort(key=lambda x: ("_p_" in x[0]["key"][0] or "_q_" in x[0]["key"][0]))
+                p, d, out = bad[0]
+                kind = "reload" if st["noop"] else "load"
+                rep.violation("answers after %s api=%s kind=%s pred=%s: %s; also differing: %s; %s" % (
+                    kind, op["api"], op["kind"], p["key"][0], d, ",".join(x[0]["key"][0] for x in bad[1:]) or "-", where),
+                    {"vector": v, "step": j, "probe": p, "got": out})
+                ok = False
             if not ok:
                 break
-        # the events of a history whose replay broke off are still valid observations up to that point
-        for e in hev:
-            index.append(e)
-            events.append(e)
-    path = os.path.join(SRCDIR, "trace-%s-%d.ndjson" % (tier, os.getpid()))
-    with open(path, "w") as f:
-        for e in events:
-            f.write(json.dumps({k: x for k, x in e.items() if not k.startswith("_")}) + "\n")
-    tres, verdicts = validate(path)
-    rep.add_tlc(tres)
+        # the events of a session whose replay broke off are still valid observations up to that point
+        sessions.append(hev)
+        events += hev
+    verdicts, paths = validate_sessions(rep, sessions, tier, procs)
     info = {}
-    for vd in verdicts:
-        e = index[vd["line"] - 1]
+    for e, vd in verdicts:
         v = vecs[e["_h"]]
         op = v["ops"][e["_j"]]
         fl = e["code"]["fl"]
@@ -238,7 +274,7 @@ def judge(rep, vecs, jobs, results, tier):
     rep.extra["reloads_judged"] = sum(1 for e in events if e["ev"] == "loaded" and vecs[e["_h"]]["steps"][e["_j"]]["noop"]
                                       and vecs[e["_h"]]["steps"][e["_j"]]["k"] >= 2)
     rep.extra["informative_counter_changes_on_reload"] = info
-    return path, events
+    return paths, events
 
 
 def binding_demo(rep, events, tier):
@@ -249,7 +285,7 @@ def binding_demo(rep, events, tier):
             seq = [e]
         else:
             seq.append(e)
-            if len(seq) >= 3 and seq[-1]["pre"] == seq[-1]["post"] and all(
+            if len(seq) >= 3 and all(seq[-1]["pre"][c] == seq[-1]["post"][c] for c in ASSERTED) and all(
                     x["ev"] == "reset" or {k: y for k, y in x.items() if k in ("src", "kind", "api", "code")} ==
                     {k: y for k, y in seq[1].items() if k in ("src", "kind", "api", "code")} for x in seq):
                 break
@@ -270,6 +306,15 @@ def binding_demo(rep, events, tier):
     os.remove(path)
 
 
+def cap(n):
+    """VERIF_MAXWORKERS limits the parallelism on a shared machine"""
+    try:
+        m = int(os.environ.get("VERIF_MAXWORKERS", "0"))
+    except ValueError:
+        m = 0
+    return min(n, m) if m > 0 else n
+
+
 def run(tier):
     rep = Report(PROP, tier, META["level"])
     rep.rule = ("every history of MC_C35: (source kinds str/str, file/file, str/file) x (API load/load, consult/consult, load/consult) x "
@@ -277,15 +322,16 @@ def run(tier):
                 "one evaluation = one load (answers of all probed predicates + footprint before/after); distinct = "
                 "(api, source kind, reload or change, k, feature flags, clause set)")
     quick = tier == "quick"
-    res, vecs = generate("MC_C35", "MC_C35_%s.cfg" % tier, workers=8 if quick else 14, timeout=7200)
+    res, vecs = generate("MC_C35", "MC_C35_%s.cfg" % tier, workers=cap(8 if quick else 14), timeout=7200)
     rep.add_tlc(res)
     if not vecs:
         raise common.ToolError("no vectors")
-    jobs, results = execute(vecs, 8 if quick else 14)
-    path, events = judge(rep, vecs, jobs, results, tier)
+    jobs, results = execute(vecs, cap(8 if quick else 14))
+    paths, events = judge(rep, vecs, jobs, results, tier, procs=cap(4 if quick else 12))
     binding_demo(rep, events, tier)
     if not rep.violations:
-        os.remove(path)
+        for p in paths:
+            os.remove(p)
     for v in vecs[:: max(1, len(vecs) // 5)]:
         rep.sample({"history": hist_text(v), "T1": render_text(v["texts"][0]), "T2": render_text(v["texts"][1]),
                     "T3": render_text(v["texts"][2]),
